@@ -5,6 +5,7 @@ import (
 
 	"verif/engines/execsim"
 	"verif/engines/loadersim"
+	"verif/engines/schedsim"
 	"verif/sim"
 )
 
@@ -36,6 +37,17 @@ func init() {
 			loadersim.RunC19(env)
 		default:
 			panic("loadersim: unknown property " + env.Prop)
+		}
+	}
+}
+
+func init() {
+	engines["schedsim"] = func(env *sim.Env) {
+		switch env.Prop {
+		case "C11":
+			schedsim.RunC11(env)
+		default:
+			panic("schedsim: unknown property " + env.Prop)
 		}
 	}
 }
